@@ -128,6 +128,50 @@ func c2one(r *mc.Recorder, e *locExpr, parents []string, cnt *int64) {
 		}
 		*cnt += 2
 	}
+	// (a2) the same location in the records of a multi-record file: each feature reads its own record
+	if len(parents) >= 2 {
+		var seqs []poly.Sequence
+		multi := string(c2record(txt, parents[0])) + string(c2record(txt, parents[1]))
+		if p := catch(func() { seqs = genbank.ParseMulti([]byte(multi)) }); p != "" {
+			r.Failf("parsed-location-bases", txt+" in a two-record file", tags, "two records", "panic: "+p)
+		} else if len(seqs) == 2 {
+			for k := 0; k < 2; k++ {
+				var g string
+				if len(seqs[k].Features) != 1 {
+					continue
+				}
+				if p := catch(func() { g = seqs[k].Features[0].GetSequence() }); p != "" || g != e.eval(parents[k]) {
+					r.Failf("parsed-location-bases", fmt.Sprintf("%s in record %d of a two-record file", txt, k+1), tags, e.eval(parents[k]), g+p)
+				}
+			}
+		}
+		*cnt += 2
+	}
+	// (d) text -> Parse -> structure -> text: the location the parser built is written back to valid INSDC
+	// syntax denoting the same bases and the same partial ends
+	{
+		var rewritten string
+		var nf int
+		if p := catch(func() {
+			s := genbank.Parse(c2record(txt, parents[0]))
+			nf = len(s.Features)
+			if nf == 1 {
+				rewritten = genbank.BuildLocationString(s.Features[0].SequenceLocation)
+			}
+		}); p == "" && nf == 1 {
+			*cnt++
+			if back, err := insdcParse(rewritten); err != nil {
+				r.Failf("written-location-valid-insdc", txt+" (parsed, then written from the structure)", tags, "valid INSDC syntax, e.g. "+txt, rewritten+" ("+err.Error()+")")
+			} else {
+				if g := back.eval(parents[0]); g != e.eval(parents[0]) {
+					r.Failf("written-location-same-bases", txt+" (parsed, then written from the structure)", tags, e.eval(parents[0]), rewritten+" -> "+g)
+				}
+				if back.leafFlags() != e.leafFlags() {
+					r.Failf("written-location-same-partial-ends", txt+" (parsed, then written from the structure)", tags, e.leafFlags(), rewritten+" -> "+back.leafFlags())
+				}
+			}
+		}
+	}
 	// (c) structure -> text: valid INSDC, same bases, same partial ends; the structure that was written is
 	// still the same afterwards (writing is not allowed to alter what it is given)
 	var written string
